@@ -60,6 +60,7 @@ def auto_summarise(I, st, env, rng):
         captured = {}
         saved = {lid: list(v) for lid, (v, _) in outer_lists.items() if isinstance(v, list)}
         I.assign_target(st.target, rng.item(i), senv)
+        ctx.merge_mode += 1
         try:
             I.exec_block(st.body, senv)
         except Exception as ex:
@@ -68,6 +69,8 @@ def auto_summarise(I, st, env, rng):
             if isinstance(ex, (BreakSig, ContinueSig)):
                 raise Unsupported("break/continue inside a summarised loop")
             raise
+        finally:
+            ctx.merge_mode -= 1
         for lid, (v, _) in outer_lists.items():
             if isinstance(v, list):
                 old = saved[lid]
